@@ -287,7 +287,16 @@ def step (st : State) (w : List String) : State × String :=
         | WRes.ok => "ok"
         | WRes.fail => "fail"
         | WRes.work => "work"
-      (st, s!"ok={boolStr (verifyRRSIG oneSig keys.length zone m)} w={wstr}:{wr.2}")
+      let estr := match verifyRRSIGErr cv inPeriod supportedAlg vkeyTag keys zone m with
+        | VErr.ok => "ok"
+        | VErr.missingDnskey => "missing-dnskey"
+        | VErr.missingSigned => "missing-signed"
+        | VErr.period => "period"
+        | VErr.alg => "alg"
+        | VErr.badSig => "badsig"
+        | VErr.noSigs => "nosigs"
+        | VErr.other => "err"
+      (st, s!"ok={boolStr (verifyRRSIG oneSig keys.length zone m)} err={estr} w={wstr}:{wr.2}")
     | _, _, _, _, _ => (st, "bad-op")
   | "vfy" :: _ => (st, "bad-op")
   | ["rsa", "parse", pk] =>
